@@ -952,7 +952,7 @@ func genC08Store(rng *rand.Rand) string {
 }
 
 func genC08(rng *rand.Rand, tier string) (cases []string) {
-	n := 2500
+	n := 6000
 	if tier == "thorough" {
 		n = 120000
 	}
